@@ -52,6 +52,34 @@ def png_for(i, w, h):
     return b.getvalue()
 
 
+def cli_fea_problems(file_names, seqs):
+    """the feature file the real glyphmap and fea steps produce for these file names (the in-process builds call
+    generate_fea directly): it must be the feature file of exactly these sequences"""
+    import subprocess
+
+    from nanoemoji import features
+
+    from harness.common import scratch_dir
+
+    with scratch_dir("verif-c04fea-") as d:
+        for fn in file_names:
+            (d / fn).write_text('<svg xmlns="http://www.w3.org/2000/svg" viewBox="0 0 10 10"/>')
+        env = build.cli_env()
+        r1 = subprocess.run(["/venv/bin/python", "-m", "nanoemoji.write_glyphmap", "--output_file", str(d / "gm.csv")] + [str(d / fn) for fn in sorted(file_names)], env=env, capture_output=True, text=True)
+        if r1.returncode != 0:
+            return [f"write_glyphmap failed: {r1.stderr[-300:]}"]
+        r2 = subprocess.run(["/venv/bin/python", "-m", "nanoemoji.write_fea", "--output_file", str(d / "out.fea"), str(d / "gm.csv")], env=env, capture_output=True, text=True)
+        if r2.returncode != 0:
+            return [f"write_fea failed: {r2.stderr[-300:]}"]
+        got = (d / "out.fea").read_text().strip()
+    want = features.generate_fea(sorted(set(seqs))).strip()
+    norm = lambda t: [l.strip() for l in t.splitlines() if l.strip()]
+    if norm(got) != norm(want):
+        missing = [l for l in norm(want) if l not in norm(got)]
+        return [f"the feature file written by the glyphmap + fea steps differs from the rules of the sequences: missing {missing[:3]}, {len(norm(got))} lines instead of {len(norm(want))}"]
+    return []
+
+
 def run_e2e(report, n_fonts, rng, formats):
     for i in range(n_fonts):
         fmt = formats[i % len(formats)]
@@ -81,6 +109,8 @@ def run_e2e(report, n_fonts, rng, formats):
         order = font.getGlyphOrder()
         cmap = font.getBestCmap()
         probs = []
+        if i < 6 or i % 10 == 0:
+            probs += cli_fea_problems([s_[0] for s_ in srcs], seqs)
         # skeleton
         if order[0] != ".notdef":
             probs.append("glyph 0 is not .notdef")
